@@ -111,7 +111,8 @@ class _Rewriter(ast.NodeTransformer):
     def visit_Call(self, node):
         src = ast.unparse(node)
         fsrc = ast.unparse(node.func)
-        self.calls.add(fsrc)
+        # the spelling of the temporary whose diagonal is read is free
+        self.calls.add("N.diagonal" if re.fullmatch(r"[A-Za-z_]\w*\.diagonal", fsrc) else fsrc)
         self.generic_visit(node)
         f = node.func
         if isinstance(f, ast.Attribute) and f.attr == "dot" and len(node.args) == 1 and not node.keywords:
